@@ -20,6 +20,9 @@ def _names_pool(rng, space, spin_mode):
     letters = LETTERS[space]
     plain = list(letters[:rng.choice([3, 4, 5, 7])])
     numbered = [rng.choice(letters) + str(rng.choice([1, 1, 2])) for _ in range(2)]
+    if rng.random() < 0.15:
+        # unusual but accepted spellings of the number
+        numbered.append(rng.choice(letters) + rng.choice(["0", "01", "03", "004", "10"]))
     pooled = [rng.choice(letters) + str(rng.choice([3, 3, 4, 4, 5, 6, 9, 10, 11, 12, 19, 20,
                                                      29, 30]))
               for _ in range(rng.choice([0, 1, 2, 3]))]
@@ -724,12 +727,26 @@ class C08Session:
         if not classes:
             return {"skip": True}
         perms = []
-        for a, b in st["perms"]:
-            cl = classes[a % len(classes)]
+        from adcgen.indices import get_symbols
+        for n, (a, b) in enumerate(st["perms"]):
+            cl = list(classes[a % len(classes)])
+            if (a // 7) % 4 == 0:
+                # an index of the same class that does not occur in the expression (yet):
+                # a later transposition may act on what an earlier one brought in
+                key = self.key_of(cl[0])
+                letters = LETTERS[key[0]]
+                extra = get_symbols([letters[(a // 28) % len(letters)] + str(1 + a % 2)],
+                                    key[1] or None)[0]
+                if extra not in cl:
+                    cl.append(extra)
             p = cl[b % len(cl)]
             q = cl[(b // len(cl) + 1 + b) % len(cl)]
             if p is q:
                 q = cl[(cl.index(p) + 1) % len(cl)]
+            if perms and (b // 3) % 3 == 0:
+                p = perms[-1][1]   # chain onto the previous transposition
+                if p is q:
+                    q = cl[(cl.index(p) + 1) % len(cl)] if p in cl else cl[0]
             perms.append((p, q))
         e = self.make_expr(sl, st.get("route", 0))
         got = e.permute(*perms).sympy
